@@ -101,6 +101,14 @@ func main() {
 	case "ref":
 		var b harness.Batch
 		readJSON(*in, &b)
+		if *reverse {
+			for i := range b.Cases {
+				if n := b.Cases[i].Spec.Flood; n > 0 {
+					harness.Flood(&b.Cases[i].Spec, n)
+					break
+				}
+			}
+		}
 		for k := range b.Cases {
 			i := k
 			if *reverse {
